@@ -48,7 +48,7 @@ struct Carrier {
     needs_fc: bool,
 }
 
-const CARRIERS: [Carrier; 9] = [
+const CARRIERS: [Carrier; 14] = [
     Carrier { name: "Gc", expr: "Gc::new(mc, 7i32)", ty_static: "Gc<'static, i32>", use_: "let _n: i32 = *x;", needs_fc: false },
     Carrier { name: "GcWeak", expr: "Gc::downgrade(Gc::new(mc, 7i32))", ty_static: "GcWeak<'static, i32>", use_: "let _b: bool = x.is_dropped();", needs_fc: false },
     // A plain `&'gc T` with `T: Sync` may legitimately be lent to a *scoped* thread inside the callback
@@ -61,6 +61,11 @@ const CARRIERS: [Carrier; 9] = [
     Carrier { name: "Write", expr: "Gc::write(mc, Gc::new(mc, RefLock::new(7i32)))", ty_static: "&'static Write<RefLock<i32>>", use_: "let _n: i32 = *x.unlock().borrow();", needs_fc: false },
     Carrier { name: "Ref-from-borrow", expr: "Gc::new(mc, RefLock::new(7i32)).borrow()", ty_static: "std::cell::Ref<'static, i32>", use_: "let _n: i32 = *x;", needs_fc: false },
     Carrier { name: "ZstCache", expr: "ZstCache::<1>::new(mc)", ty_static: "ZstCache<'static, 1>", use_: "let _p = x.cached_ptr();", needs_fc: false },
+    Carrier { name: "Gc-from-fetch", expr: "{ let set = DynamicRootSet::new(mc); let h = set.stash::<Rootable![i32]>(mc, Gc::new(mc, 7i32)); set.fetch(&h) }", ty_static: "Gc<'static, i32>", use_: "let _n: i32 = *x;", needs_fc: false },
+    Carrier { name: "Gc-from-upgrade", expr: "Gc::downgrade(Gc::new(mc, 7i32)).upgrade(mc).unwrap()", ty_static: "Gc<'static, i32>", use_: "let _n: i32 = *x;", needs_fc: false },
+    Carrier { name: "Gc-from-builder", expr: "gc_arena::GcBuilder::<i32>::new().write(mc, 7i32)", ty_static: "Gc<'static, i32>", use_: "let _n: i32 = *x;", needs_fc: false },
+    Carrier { name: "GcSlice", expr: "gc_arena::GcSlice::new_slice(mc, &[7i32, 8])", ty_static: "gc_arena::GcSlice<'static, i32>", use_: "let _n: i32 = x[0];", needs_fc: false },
+    Carrier { name: "GcThinStr", expr: "Gc::as_thin(gc_arena::GcStr::new_str(mc, \"seven\"))", ty_static: "gc_arena::GcThinStr<'static>", use_: "let _n: usize = x.len();", needs_fc: false },
 ];
 
 const TWIN: Carrier = Carrier { name: "i32", expr: "*Gc::new(mc, 7i32)", ty_static: "i32", use_: "let _n: i32 = x;", needs_fc: false };
